@@ -522,7 +522,7 @@ func ruleC06Hole(c *Ctx) {
 			isFalloc := callMatches(site, "syscall.Fallocate")
 			if isFalloc {
 				// fd = file.Fd(): take the receiver of the Fd() call
-				if fdc, ok := strip(call.Call.Args[0]).(*ssa.Call); ok && fdc.Call.IsInvoke() && fdc.Call.Method.Name() == "Fd" {
+				if fdc, ok := strip(targetArgs(call)[0]).(*ssa.Call); ok && fdc.Call.IsInvoke() && fdc.Call.Method.Name() == "Fd" {
 					F = fdc.Call.Value
 				}
 			} else {
